@@ -316,6 +316,16 @@ def check_errors(t, v, errors, builder, which):
         f = fact_holds(e, reached, builder)
         if f is not True:
             yield f"C03|{which}|stated-fact-false|{name}|{f}", repr(e)
+        if name == "SchemaMismatch" and not _has_subst(t):
+            # "no alternative matched" is a statement about the DECLARED alternatives (the error's
+            # own list is what the validator happened to try): the declared union at this path
+            # must reject the sub-value
+            unions = [n for n in nodes_at(t, keys) if n[0] in ("any", "or")]
+            try:
+                if unions and all(M.accepts(n, reached) for n in unions):
+                    yield f"C03|{which}|stated-fact-false|{name}|a-declared-alternative-accepts-the-value", repr(e)
+            except M.ModelGap:
+                pass
         if not _has_subst(t) and not any(declares(n, e) for n in nodes_at(t, keys)):
             yield f"C03|{which}|parameter-not-declared-on-path|{name}|depth{depth}", repr(e)
         try:
